@@ -152,6 +152,25 @@ def make_env():
 
     class NPIO(npshim.NPShim):
         @staticmethod
+        def array(obj, dtype=None, **kw):
+            """numbers are float64 in yadism's results: a conversion to any narrower or integer dtype is a lossy cast, modelled as an
+            uninterpreted function of the token (so the loaded token is provably the original only if no such cast sits on the path)"""
+            if dtype is not None and npshim._has_sym(obj):
+                try:
+                    dt = np.dtype(dtype)
+                except TypeError:
+                    dt = None
+                if dt is not None and dt != object and not (dt.kind == "f" and dt.itemsize >= 8) and dt.kind in "fiu":
+                    ctx_ = real.cur()
+                    cast = np.frompyfunc(lambda e: ctx_.ufun(f"cast_{dt.name}", [e]) if isinstance(e, S) else e, 1, 1)
+                    return cast(np.array(obj, dtype=object))
+            return npshim.NPShim.array(obj, dtype=dtype, **kw)
+
+        @staticmethod
+        def asarray(obj, dtype=None, **kw):
+            return NPIO.array(obj, dtype=dtype, **kw) if dtype is not None and npshim._has_sym(obj) else npshim.NPShim.asarray(obj, dtype=dtype, **kw)
+
+        @staticmethod
         def savez_compressed(path, **arrays):
             p = str(path)
             fs.files[p if p.endswith(".npz") else p + ".npz"] = {k: np.array(v, dtype=object) if npshim._has_sym(v) else np.array(v) for k, v in arrays.items()}
@@ -338,7 +357,7 @@ def replay_roundtrip(args):
     def mk(name):
         if name not in vals:
             # distinct values of both signs (errors of cross sections are signed linear combinations)
-            vals[name] = (float(len(vals) + 1) + 0.125) * (-1 if len(vals) % 3 == 2 else 1)
+            vals[name] = (float(len(vals) + 1) + 0.1) * (-1 if len(vals) % 3 == 2 else 1)  # not representable in float32
         return vals[name]
 
     shape = [tuple(s) for s in args["shape"]]
